@@ -1296,3 +1296,57 @@ def r06_18(ctx, run, rule='R06.18'):
                     run.undecided(rule, p, f'path-tail[{callee}]', f'the path handed to the recursive call ({show(a)[:50]}) is neither this function\'s whole path nor visibly its rest: not decided', loc)
     if not n:
         run.proved(rule, '<crate>', 'path-tail', 'no key-path walker recurses over a path slice (the walkers share one queue that each level pops from)', nontrivial=False)
+
+
+# ------------------------------------------------------------------ R06.19 the key scan of object_insert uses the builder's key order
+
+def r06_19(ctx, run, rule='R06.19'):
+    """object_insert_jsonb walks the existing keys, which are laid out in the order ObjectBuilder / the encoder give them (BTreeMap<&str, _>:
+    bytewise order of the UTF-8 bytes), and stops at the first key that is not smaller than the new key.  The scan is right only if it compares
+    keys in that same order: an ordering test whose operands are not the two keys themselves (a tuple with the length first, a case-folded
+    copy) makes the scan stop before an existing equal key (sibling agreement: producer order vs consumer order)."""
+    fn = 'functions::object_insert_jsonb'
+    b = ctx.facts.bodies.get(fn)
+    if b is None:
+        run.undecided(rule, fn, 'scan-order', 'function not found (anchor lost)')
+        return
+    paths, loops = region_paths(b)
+    ORD = ('PartialOrd::gt', 'PartialOrd::lt', 'PartialOrd::ge', 'PartialOrd::le', 'Ord::cmp', 'PartialOrd::partial_cmp')
+    good = bad = other = 0
+    seen = set()
+    for q in paths:
+        for c in q.conds:
+            for t in subterms(c[0]):
+                if t[0] != 'call' or not any(canon(t[1]).endswith(o) for o in ORD) or len(t[2]) != 2:
+                    continue
+                args = [deref_all(a) for a in t[2]]
+                mentions_new = [any(s_[0] == 'init' and b.name_of(s_[1]) == 'new_key' for s_ in subterms(a)) for a in args]
+                if not any(mentions_new):
+                    continue
+                key = (t[1], show(args[0])[:80], show(args[1])[:80])
+                if key in seen:
+                    continue
+                seen.add(key)
+                direct = [a[0] == 'init' and b.name_of(a[1]) == 'new_key' for a in args]
+                tuples = [a for a in args if a[0] == 'agg' and a[1] == 'tuple' and a[2]]
+                # a tuple whose *first* component is not the key orders by that component first; (key, ..) tuples are not read
+                lead_not_key = [a for a in tuples if not (deref_all(a[2][0])[0] == 'init' and b.name_of(deref_all(a[2][0])[1]) == 'new_key')
+                                and any(s_[0] == 'init' and b.name_of(s_[1]) == 'new_key' for s_ in subterms(a))
+                                and any(is_call(s_, 'len') or (s_[0] == 'call' and canon(s_[1]).endswith('::len')) or s_[0] == 'len' for s_ in subterms(a[2][0]))]
+                if lead_not_key:
+                    bad += 1
+                elif tuples:
+                    other += 1
+                elif any(direct) and all(a[0] in ('init', 'hav', 'call', 'field', 'post') for a in args) and not any(
+                        a[0] == 'call' and not called(a[1], 'from_utf8_unchecked', 'from_utf8', 'Index::index', 'unwrap', 'Result::unwrap') for a in args):
+                    good += 1
+                else:
+                    other += 1
+    loc = f'{b.file}:{b.line}'
+    if bad:
+        run.violation(rule, fn, 'scan-order', 'the key scan orders keys by a tuple (another key first, e.g. the length) while the builders and the encoder lay keys out in plain bytewise order: '
+                      'the scan stops before an existing equal key that follows a longer, bytewise smaller key, so a duplicate is not seen', loc)
+    elif other or not good:
+        run.undecided(rule, fn, 'scan-order', 'the ordering test of the key scan is not a direct comparison of the new key with an existing key: which order it uses is not decided', loc)
+    else:
+        run.proved(rule, fn, 'scan-order', f'{good} ordering test(s) compare the new key with an existing key directly (str order = the order of the layout)', loc)
